@@ -632,9 +632,39 @@ pub fn generate(rng: &mut Rng) -> Program {
 /// The workload for one check run: all harvested programs (in their own
 /// variant and, for a sample, in the other three) plus `n_generated` distinct
 /// generated ones.
+/// The gensim corpus (several hundred entrait invocations of systematically varied shapes,
+/// all accepted by the macro) doubles as workload for the session simulator.
+pub fn harvest_corpus(verif: &Path) -> Vec<Program> {
+    let mut out = vec![];
+    let f = verif.join("gensim/src/corpus.rs");
+    if let Ok(text) = std::fs::read_to_string(&f) {
+        if let Ok(file) = syn::parse_file(&text) {
+            let mut h = Harvester {
+                origin: "verif/gensim/src/corpus.rs".to_string(),
+                out: vec![],
+            };
+            h.visit_file(&file);
+            out = h.out;
+        }
+    }
+    out
+}
+
 pub fn build_workload(repo: &Path, seed: u64, n_generated: usize) -> (Vec<Program>, usize) {
-    let harvested = harvest(repo);
+    build_workload_with(repo, None, seed, n_generated)
+}
+
+pub fn build_workload_with(repo: &Path, verif: Option<&Path>, seed: u64, n_generated: usize) -> (Vec<Program>, usize) {
+    let mut harvested = harvest(repo);
     let n_harvested = harvested.len();
+    if let Some(v) = verif {
+        let mut seen: std::collections::BTreeSet<u64> = harvested.iter().map(|p| p.key()).collect();
+        for p in harvest_corpus(v) {
+            if seen.insert(p.key()) {
+                harvested.push(p);
+            }
+        }
+    }
     let mut out = harvested.clone();
     let mut seen: std::collections::BTreeSet<u64> = out.iter().map(|p| p.key()).collect();
     let mut rng = Rng::new(seed ^ 0x5e55_1a11);
